@@ -92,7 +92,7 @@ def rows_case(draw):
         st.tuples(st.just("append_dict"), row, st.permutations(list(range(ncol)))),
         st.tuples(st.just("sort"), st.integers(0, ncol - 1), st.booleans()),
         # a row the collector has to refuse (one value short, one too many): it must leave the rows as they were
-        st.tuples(st.just("bad_append"), row, st.sampled_from(["short", "long"])),
+        st.tuples(st.just("bad_append"), row, st.sampled_from(["short", "long", "extra_key"])),
     )
     init = draw(st.lists(row, max_size=4))
     ops = draw(st.lists(op, min_size=1, max_size=16))
@@ -369,6 +369,10 @@ def check_rows(case, v):
             v.label("dict_row")
         elif op[0] == "bad_append":
             bad = list(op[1])[:-1] if op[2] == "short" else list(op[1]) + [op[1][0]]
+            if op[2] == "extra_key":
+                # a dict row with every declared column and one that was never declared (a misspelt name)
+                bad = {n_: x_ for n_, x_ in zip(names, op[1])}
+                bad["Undeclared"] = op[1][0]
             try:
                 rc.append(bad)
             except Exception:
